@@ -3,6 +3,7 @@ VIOLATION / KNOWN-FINDING lines and exit codes.  See DESIGN.md section 2."""
 import base64
 import collections
 import fnmatch
+import gc
 import hashlib
 import json
 import multiprocessing
@@ -22,6 +23,7 @@ KNOWN_FILE = os.path.join(HERE, "known_findings.json")
 NCPU = min(16, os.cpu_count() or 1)
 CASE_TIMEOUT = 120  # seconds; expiry = inconclusive (exit 2), never a violation
 MAX_ROUNDS = 4  # distinct unlisted signatures a worker keeps searching past
+_ITEMS = {}  # per-process cache of enumerated item lists
 
 
 class Violation(Exception):
@@ -156,8 +158,62 @@ class _Alarm:
 
 # --------------------------------------------------------------------------
 # worker side
+#
+# Copy-on-write page faults are very expensive on this kind of VM when 16
+# children take them at once, so the pool is forked *before* anything heavy is
+# imported (tiny parent heap); each worker imports hypothesis / nsl / the check
+# module itself and then re-runs the check's `run(R)` in "worker mode", in which
+# only the addressed part executes its share of the work.
 
-_JOB = None  # set in the parent before forking
+_POOL = None
+
+
+class _WorkerDone(BaseException):
+    pass
+
+
+def start_pool():
+    global _POOL
+    if _POOL is None and not os.environ.get("VERIF_NOFORK"):
+        mp = multiprocessing.get_context("fork")
+        _POOL = mp.Pool(NCPU)
+    return _POOL
+
+
+def stop_pool():
+    global _POOL
+    if _POOL is not None:
+        _POOL.terminate()
+        _POOL.join()
+        _POOL = None
+
+
+def _task(spec):
+    """Runs in a pool worker: (prop, tier, seed, part, shard, nshards)."""
+    prop, tier, seed, part, shard, nshards = spec
+    import importlib
+    try:
+        mod = importlib.import_module("vf.checks." + prop.lower())
+        R = Runner(prop, tier, seed, worker=(part, shard, nshards))
+        try:
+            mod.run(R)
+        except _WorkerDone:
+            pass
+        if R.worker_result is None:
+            st = Stats()
+            st.errors.append("worker: part %r not reached in run()" % part)
+            return st
+        return R.worker_result
+    except BaseException as e:  # noqa
+        st = Stats()
+        st.errors.append("worker crashed: %s\n%s" % (e, traceback.format_exc(limit=12)))
+        return st
+
+
+def _map_tasks(specs):
+    if _POOL is None:
+        return [_task(s) for s in specs]
+    return _POOL.map(_task, specs, chunksize=1)
 
 
 def _run_case(ctx, fn, case, stats):
@@ -188,9 +244,7 @@ def _failure_record(v):
             "case": _pack(v.case)}
 
 
-def _hyp_worker(k):
-    job = _JOB
-    import hypothesis
+def _hyp_body(job, k):
     from hypothesis import HealthCheck, Phase, given, seed, settings
 
     stats = Stats()
@@ -254,8 +308,7 @@ def _hyp_worker(k):
     return stats
 
 
-def _enum_worker(chunk):
-    job = _JOB
+def _enum_body(job, chunk):
     stats = Stats()
     ctx = Ctx(stats, job["is_known"])
     seen = set()
@@ -271,13 +324,18 @@ def _enum_worker(chunk):
     return stats
 
 
-def _pool_map(func, items, procs):
-    procs = max(1, min(procs, len(items)))
-    if procs == 1 or os.environ.get("VERIF_NOFORK"):
-        return [func(i) for i in items]
-    mp = multiprocessing.get_context("fork")
-    with mp.Pool(procs) as pool:
-        return pool.map(func, items, chunksize=1)
+def _custom_body(job, k):
+    stats = Stats()
+    ctx = Ctx(stats, job["is_known"], max_samples=2)
+    try:
+        job["fn"](k, ctx)
+    except Violation as v:
+        stats.failures.append(_failure_record(v))
+    except HarnessAbort:
+        pass
+    except BaseException as e:
+        stats.errors.append("custom worker error: %s\n%s" % (e, traceback.format_exc(limit=10)))
+    return stats
 
 
 # --------------------------------------------------------------------------
@@ -285,7 +343,7 @@ def _pool_map(func, items, procs):
 
 
 class Runner:
-    def __init__(self, prop, tier, seed, level="exploration", replay=None):
+    def __init__(self, prop, tier, seed, level="exploration", replay=None, worker=None):
         self.prop = prop
         self.tier = tier
         self.seed = seed
@@ -298,6 +356,9 @@ class Runner:
         self.exhaustive_parts = []
         self.replay = replay  # (part, case) or None
         self.replay_result = None
+        self.replay_path = None
+        self.worker = worker  # (part, shard, nshards) in a pool worker
+        self.worker_result = None
         self.required = []
         self.known = [k for k in load_known() if k.get("property") == prop]
         self._is_known = self._make_is_known()
@@ -317,6 +378,10 @@ class Runner:
     @property
     def quick(self):
         return self.tier == "quick"
+
+    @property
+    def in_worker(self):
+        return self.worker is not None
 
     def pick(self, quick, thorough):
         return quick if self.quick else thorough
@@ -341,57 +406,63 @@ class Runner:
                 self.replay_result = ("fail", v)
         return True
 
+    def _specs(self, name, n):
+        return [(self.prop, self.tier, self.seed, name, k, n) for k in range(n)]
+
+    def _collect(self, name, results):
+        p = self._part(name)
+        for r in results:
+            p.merge(r)
+
     def hyp(self, name, strategy, fn, examples, workers=None, shrink=True):
         """Run `fn(ctx, case)` on `examples` generated cases per worker."""
         if self._replaying(name, fn):
             return
-        global _JOB
         workers = workers or NCPU
-        _JOB = dict(prop=self.prop, part=name, strategy=strategy, fn=fn,
-                    examples=examples, verif_seed=self.seed,
-                    is_known=self._is_known, shrink=shrink)
-        try:
-            results = _pool_map(_hyp_worker, list(range(workers)), workers)
-        finally:
-            _JOB = None
-        p = self._part(name)
-        for r in results:
-            p.merge(r)
+        if self.in_worker:
+            if self.worker[0] != name:
+                return
+            if callable(strategy) and not hasattr(strategy, "example"):
+                strategy = strategy()
+            job = dict(prop=self.prop, part=name, strategy=strategy, fn=fn, examples=examples,
+                       verif_seed=self.seed, is_known=self._is_known, shrink=shrink)
+            self.worker_result = _hyp_body(job, self.worker[1])
+            raise _WorkerDone()
+        self._collect(name, _map_tasks(self._specs(name, workers)))
 
     def enum(self, name, items, fn, exhaustive=True, chunks=None):
-        """Run `fn(ctx, item)` on every item of a finite list."""
+        """Run `fn(ctx, item)` on every item of a finite list (or a callable
+        returning one; it is only called where the list is needed)."""
         if self._replaying(name, fn):
             return
-        global _JOB
-        items = list(items)
+        if self.in_worker:
+            if self.worker[0] != name:
+                return
+            key = (self.prop, self.tier, name)
+            if key not in _ITEMS:
+                _ITEMS.clear()
+                _ITEMS[key] = list(items() if callable(items) else items)
+            allitems = _ITEMS[key]
+            _, shard, n = self.worker
+            job = dict(fn=fn, is_known=self._is_known)
+            self.worker_result = _enum_body(job, allitems[shard::n])
+            raise _WorkerDone()
         nch = chunks or (NCPU * 4)
-        nch = max(1, min(nch, len(items)))
-        chunked = [items[i::nch] for i in range(nch)]
-        _JOB = dict(prop=self.prop, part=name, fn=fn, is_known=self._is_known)
-        try:
-            results = _pool_map(_enum_worker, chunked, NCPU)
-        finally:
-            _JOB = None
-        p = self._part(name)
-        for r in results:
-            p.merge(r)
+        self._collect(name, _map_tasks(self._specs(name, nch)))
         if exhaustive:
             self.exhaustive_parts.append(name)
 
     def custom(self, name, worker_fn, nworkers, exhaustive=False):
-        """worker_fn(k, ctx) runs in a forked worker with its own Ctx/Stats."""
+        """worker_fn(k, ctx) runs in a pool worker with its own Ctx/Stats."""
         if self.replay is not None:
             return
-        global _JOB
-        _JOB = dict(prop=self.prop, part=name, fn=worker_fn, is_known=self._is_known,
-                    verif_seed=self.seed)
-        try:
-            results = _pool_map(_custom_worker, list(range(nworkers)), nworkers)
-        finally:
-            _JOB = None
-        p = self._part(name)
-        for r in results:
-            p.merge(r)
+        if self.in_worker:
+            if self.worker[0] != name:
+                return
+            job = dict(fn=worker_fn, is_known=self._is_known)
+            self.worker_result = _custom_body(job, self.worker[1])
+            raise _WorkerDone()
+        self._collect(name, _map_tasks(self._specs(name, nworkers)))
         if exhaustive:
             self.exhaustive_parts.append(name)
 
@@ -509,21 +580,6 @@ class Runner:
         print("replay: FAILS sig=%s\n%s" % (v.sig, v.detail))
         print("VIOLATION property=%s replay=%s" % (self.prop, self.replay_path))
         return 1
-
-
-def _custom_worker(k):
-    job = _JOB
-    stats = Stats()
-    ctx = Ctx(stats, job["is_known"], max_samples=2)
-    try:
-        job["fn"](k, ctx)
-    except Violation as v:
-        stats.failures.append(_failure_record(v))
-    except HarnessAbort:
-        pass
-    except BaseException as e:
-        stats.errors.append("custom worker error: %s\n%s" % (e, traceback.format_exc(limit=10)))
-    return stats
 
 
 def load_known():
